@@ -535,7 +535,7 @@ def obligations(tier):
                 continue
             if nreg == 3 and q and (a, b, c) not in [(0, 1, 2), (2, 1, 0), (1, 2, 0)]:
                 continue
-            for pb in ((False,) if (nreg == 1 or q) else (False, True)):
+            for pb in ((False,) if (nreg in (1, 2) or q) else (False, True)):
                 fx = {'nreg': nreg, 'a': a, 'b': b, 'c': c, 'probe_between': pb or nreg == 2}
                 if nreg < 3:
                     fx['ec'] = False
